@@ -111,7 +111,7 @@ class Check(PropertyCheck):
             metas = []
             for _ in range(k):
                 fam = rng.choice(["classic", "irregular", "recirc", "recirc", "zero", "zero", "gaps", "single_machine",
-                                  "ties", "samemachine"])
+                                  "ties", "samemachine", "zero_mid"])
                 if fam == "samemachine":
                     J, M = rng.randint(1, 3), rng.randint(1, 3)
                     jobs = []
@@ -123,6 +123,11 @@ class Check(PropertyCheck):
                                 m = rng.randrange(M)       # otherwise: consecutive operations on the same machine
                             job.append(([m], rng.choice([0, 1, 2, 3, 5])))
                         jobs.append(job)
+                elif fam == "zero_mid":
+                    # zero-duration operations in the middle or at the end of a job, on machines other jobs keep busy
+                    J, M = 3, rng.randint(2, 3)
+                    jobs = [[([rng.randrange(M)], 0 if (p > 0 and rng.random() < 0.6) else rng.randint(2, 6))
+                             for p in range(rng.randint(2, 3))] for _j in range(J)]
                 else:
                     _, jobs = gen.gen_instance(rng, fam, max_jobs=3, max_machines=3, max_ops=3, max_dur=6)
                 lines += [instance_line(jobs), "cpsolve" if rng.random() < 0.7 else "cpsolve call", "cpmodel"]
